@@ -73,7 +73,7 @@ Proof.
   - apply Nat.eqb_eq in E. destruct (empty x) eqn:Ex; [discriminate H|].
     rewrite E in H. inversion H; subst j. exists x. split; [reflexivity | exact Ex].
   - apply Nat.eqb_neq in E. destruct j as [|j]; [lia|].
-    inversion H as [H']. destruct (IH _ H') as [c [Hc Hec]]. exists c. split; assumption.
+    injection H as H'. destruct (IH _ H') as [c [Hc Hec]]. exists c. split; [exact Hc | exact Hec].
 Qed.
 
 (* ---- build_columns / get_table_data --------------------------------------------------------------- *)
@@ -340,15 +340,14 @@ Proof.
     destruct (modal_zero_or_key (x :: rows)) as [Z|[Hk [y [Hy Ey]]]].
     + specialize (H3 x (or_introl eq_refl)). lia.
     + specialize (H3 y Hy). pose proof (nonempty_cells_le_count y). lia.
-  - right. exists k. repeat split; [exact H1 | exact H2 | |].
-    + intros ->. cbn [count_nonempty] in H3.
-      assert (Z : column_count_modal rows = 0).
-      { destruct (modal_zero_or_key rows) as [Z|[Hk _]]; [exact Z | lia]. }
-      destruct k as [|k]; [destruct rows; [discriminate H2 | cbn in H2 |- *; exact H2]|].
-      destruct rows as [|x rows]; [discriminate H2|].
-      specialize (H4 0 x (Nat.lt_0_succ _) eq_refl). rewrite Z in H4. lia.
-    + intros ->. cbn [count_nonempty] in H3.
-      destruct (modal_zero_or_key rows) as [Z|[Hk _]]; [exact Z | lia].
+  - right. exists k. split; [exact H1 | split; [exact H2 | intros ->]].
+    cbn [count_nonempty] in H3.
+    assert (Z : column_count_modal rows = 0).
+    { destruct (modal_zero_or_key rows) as [Z|[Hk _]]; [exact Z | lia]. }
+    split; [|exact Z].
+    destruct k as [|k]; [destruct rows; [discriminate H2 | cbn in H2 |- *; exact H2]|].
+    destruct rows as [|x rows]; [discriminate H2|].
+    specialize (H4 0 x (Nat.lt_0_succ _) eq_refl). rewrite Z in H4. lia.
 Qed.
 
 Lemma skipn_nth_error_cons : forall {A} (l : list A) k x,
@@ -397,8 +396,8 @@ Proof.
            ++ inversion H; subst. intros r Hr. rewrite repeat_length.
               replace (S k - 1) with k in Hr by lia.
               rewrite (skipn_nth_error_cons _ _ _ Hk) in Hr. destruct Hr as [<-|Hr].
-              ** pose proof (count_nonempty_le_length header). pose proof (expand_headers_ge header (S k) sample).
-                 fold hs1 in H1. lia.
+              ** pose proof (count_nonempty_le_length header) as Hc1.
+                 pose proof (expand_headers_ge header (S k) sample) as Hc2. fold hs1 in Hc2. lia.
               ** apply (expand_headers_covers header). exact Hr.
            ++ inversion H; subst. intros r Hr. apply expand_headers_covers. exact Hr.
       * (* header rejected: all headers are "" *)
